@@ -38,10 +38,8 @@ fn check(case: &Case) -> PResult {
 
     let or = no_panic("bitor_panic", "&a | &b", || sa | sb)?;
     check_content(&sy, &or, &exp_or, "bitor")?;
-    check_image(&or, &exp_or, "bitor")?;
     let and = no_panic("bitand_panic", "&a & &b", || sa & sb)?;
     check_content(&sy, &and, &exp_and, "bitand")?;
-    check_image(&and, &exp_and, "bitand")?;
     // commutative forms
     ensure!((sb | sa) == or, "bitor_commutes", "&b | &a != &a | &b");
     ensure!((sb & sa) == and, "bitand_commutes", "&b & &a != &a & &b");
@@ -55,7 +53,6 @@ fn check(case: &Case) -> PResult {
         // operands in whatever provenance they were generated with
         let r = no_panic("bit_or_panic", "Seq::bit_or (generated provenance)", || x.clone().bit_or(y.clone()))?;
         check_content(&sy, &r, &exp_or, "bit_or_owned_prov")?;
-        check_image(&r, &exp_or, "bit_or_owned_prov")?;
         let r = no_panic("bit_and_panic", "Seq::bit_and (generated provenance)", || x.clone().bit_and(y.clone()))?;
         check_content(&sy, &r, &exp_and, "bit_and_owned_prov")?;
     }
